@@ -6,6 +6,7 @@ import (
 	"fmt"
 	"go/ast"
 	"go/types"
+	"strings"
 )
 
 func (ec *evalCtx) specCall(call *ast.CallExpr) Value {
@@ -41,7 +42,21 @@ func (ec *evalCtx) specCall(call *ast.CallExpr) Value {
 		a := ec.evalBool(call.Args[0])
 		ec.pol = -ec.pol
 		ec.st.guards = append(ec.st.guards, a)
-		b := ec.evalBool(call.Args[1])
+		// a consequent that mentions a ghost `let` / local that does not exist on this path
+		// means the defining point was not reached: the antecedent must then be false.
+		var b *Term
+		func() {
+			defer func() {
+				if r := recover(); r != nil {
+					if u, ok := r.(unsupportedErr); ok && strings.Contains(u.msg, "unknown identifier") {
+						b = False
+						return
+					}
+					panic(r)
+				}
+			}()
+			b = ec.evalBool(call.Args[1])
+		}()
 		ec.st.guards = ec.st.guards[:len(ec.st.guards)-1]
 		return Implies(a, b)
 	case "iff":
@@ -166,6 +181,18 @@ func (ec *evalCtx) specCall(call *ast.CallExpr) Value {
 		// has(m, k): key present in map
 		need(2)
 		return Select(arg(0).(*MapV).Dom, scalar(arg(1)))
+	case "in":
+		need(1)
+		return ec.inLval(arg(0)).get()
+	case "held":
+		need(1)
+		if v, ok := ec.st.ghost["lock:"+exprString(call.Args[0])].(*Term); ok {
+			return v
+		}
+		return False
+	case "itoa":
+		need(1)
+		return itoaModel(ec, scalar(arg(0)))
 	case "out", "tr", "ghost", "evSet", "evStatus", "evWrite", "evError", "evDelegate":
 		return ec.ghostCall(name, call)
 	case "int", "int64", "int32", "uint32", "uint8", "byte", "rune", "uint", "uint64", "string":
@@ -285,6 +312,13 @@ func (ec *evalCtx) ghostCall(name string, call *ast.CallExpr) Value {
 func writerKey(ec *evalCtx, w Value) string {
 	switch x := w.(type) {
 	case *IfaceV:
+		if len(x.Payloads) == 1 && x.Tag.IsInt() {
+			for _, p := range x.Payloads {
+				if pv, ok := p.(*PtrV); ok && pv.Obj >= 0 {
+					return fmt.Sprintf("obj%d", pv.Obj)
+				}
+			}
+		}
 		return x.Id.Key()
 	case *PtrV:
 		return fmt.Sprintf("obj%d", x.Obj)
